@@ -64,6 +64,7 @@ func NewSolver(kind string, timeoutMs int) (*Solver, error) {
 		s.send(fmt.Sprintf("(set-option :timeout %d)", timeoutMs))
 		s.send("(set-option :produce-models true)")
 	} else {
+		s.send("(set-option :global-declarations true)")
 		s.send("(set-logic ALL)")
 	}
 	return s, nil
